@@ -50,7 +50,7 @@ func init() {
 		Shards: func(t core.Tier) int { return 16 },
 		Run:    runC18,
 		Check: func(r *core.Result, t core.Tier) {
-			for _, cr := range []string{drive.Var, drive.StructRM, drive.StructTag, drive.MapT, drive.SliceMap, "url-enc-decoys", drive.UrlEncFull, drive.UrlRaw} {
+			for _, cr := range []string{drive.Var, drive.StructRM, drive.StructTag, drive.MapT, drive.SliceMap, "url-enc-decoys", drive.UrlEncFull, drive.UrlRaw, drive.UrlPtr} {
 				if r.Counters["compared_nonempty|"+cr] < 300 {
 					r.Inconc(fmt.Sprintf("carrier compared on too few tuples with a non-empty marker set: %s=%d", cr, r.Counters["compared_nonempty|"+cr]))
 				}
@@ -121,7 +121,7 @@ func c18Case(res *core.Result, rng *rand.Rand, t reflect.Type, v reflect.Value, 
 		s, oth := c18Markers(o)
 		all = append(all, obs{cr, o, s, oth})
 	}
-	for _, cr := range []string{drive.Var, drive.StructRM, drive.StructTag, drive.MapT, drive.MapIface, drive.SliceMap, drive.UrlRaw, drive.UrlEncFull} {
+	for _, cr := range []string{drive.Var, drive.StructRM, drive.StructTag, drive.MapT, drive.MapIface, drive.SliceMap, drive.UrlRaw, drive.UrlEncFull, drive.UrlPtr} {
 		if o, ok := drive.Carry(cr, v, rules); ok {
 			add(cr, o)
 		}
